@@ -121,8 +121,10 @@ where
                 if no_duplicates {
                     // There are no duplicate constant constraints. Create a new constraint
                     // to follow the fulfillment of the variable domain constraints.
+                    // The new constraint is run at once: some of the variables may already
+                    // be bound to values that must be checked and excluded from the others.
                     let c = DistinctFd2Constraint::new(self.u.clone(), x, n);
-                    Ok(state.with_constraint(c))
+                    c.run(state)
                 } else {
                     // If there are duplicate constants in the array, then the constraint is
                     // already violated.
